@@ -47,3 +47,9 @@ package limits
 //@ use casketfile/contracts_verif.go:dispenser_api
 //@ use @verif/specs/stdlib.spec:stdlib
 //@ use @verif/specs/stdlib.spec:casket_api
+//@ // sort.Sort calls these with 0 <= i, j < Len() (its documented contract): stated as preconditions
+//@ func (*pathLimitSorter).Swap
+//@   requires s != nil && 0 <= i && i < len(s.pathLimits) && 0 <= j && j < len(s.pathLimits)
+//@   modifies E:github.com/tmpim/casket/caskethttp/httpserver.PathLimit
+//@ func (*pathLimitSorter).Less
+//@   requires s != nil && 0 <= i && i < len(s.pathLimits) && 0 <= j && j < len(s.pathLimits)
